@@ -254,9 +254,11 @@ def make_handler(f, ctx, symmetric=True):
                 else:
                     interp.err(f"keyword {k.arg} of np.dot", e)
             return res
-        if short == "sum" and d in ("np.sum", "numpy.sum"):
-            x = interp.expr(e.args[0])
-            axis = [interp.expr(k.value) for k in e.keywords if k.arg == "axis"] + [interp.expr(a) for a in e.args[1:]]
+        is_sum_method = short == "sum" and isinstance(e.func, ast.Attribute) and d not in ("np.sum", "numpy.sum") and \
+            isinstance(interp.env.get(ast.unparse(e.func.value)), (OV, Table))
+        if short == "sum" and (d in ("np.sum", "numpy.sum") or is_sum_method):
+            x = interp.expr(e.func.value if is_sum_method else e.args[0])
+            axis = [interp.expr(k.value) for k in e.keywords if k.arg == "axis"] + [interp.expr(a) for a in (e.args if is_sum_method else e.args[1:])]
             if isinstance(x, OV):
                 if not axis or not isinstance(axis[0], int) or x.axes[axis[0]] != "Orb":
                     raise Mismatch(f"np.sum over axis {axis} of an array with axes {x.axes}: the orbital axis must be summed", e)
